@@ -30,6 +30,7 @@ let qvar = function
   | VB _ -> QBool
   | VNone -> QNone
   | VL [t; VS r] when tag t = "float" -> QFloat (str_of_ints r)
+  | VL [t; VS r] when tag t = "strsub" -> QStr (str_of_ints r)     (* an instance of a subclass of str: still a str *)
   | VL [t] when tag t = "inf" -> QInf
   | VL [t] when tag t = "nan" -> QNan
   | VL [t] when tag t = "other" -> QOther
